@@ -95,6 +95,8 @@ pub enum Op {
     // consuming APIs (C12)
     TryUnwrap(usize),
     MakeMut(usize),
+    /// make_mut applied in place to the k-th handle stored in an object's value
+    MakeMutIn(ObjId, usize),
     GetMut(usize),
     RawRound(usize),
     IncStrong(HRef),
@@ -106,6 +108,9 @@ pub enum Op {
     CloneDead(usize),
     /// drop own stored handle k whose target is dead (C16, drop-only variant)
     DropDead(usize),
+    /// inside a destructor: downgrade own stored handle k (its target may be a dying peer or the
+    /// dying object itself) and let the Weak escape to the program (C05)
+    DowngradeOwn(usize),
     /// no-op marker
     Nop,
 }
@@ -163,6 +168,7 @@ impl fmt::Display for Op {
             Op::WeakNew => write!(f, "wnew"),
             Op::TryUnwrap(s) => write!(f, "tryunwrap:{}", fmt_slot(*s)),
             Op::MakeMut(s) => write!(f, "makemut:{}", fmt_slot(*s)),
+            Op::MakeMutIn(o, k) => write!(f, "makemutin:{}:{}", o, k),
             Op::GetMut(s) => write!(f, "getmut:{}", fmt_slot(*s)),
             Op::RawRound(s) => write!(f, "rawround:{}", fmt_slot(*s)),
             Op::IncStrong(h) => write!(f, "incstrong:{}", h),
@@ -180,6 +186,7 @@ impl fmt::Display for Op {
             Op::Panic => write!(f, "panic"),
             Op::CloneDead(k) => write!(f, "clonedead:{}", k),
             Op::DropDead(k) => write!(f, "dropdead:{}", k),
+            Op::DowngradeOwn(k) => write!(f, "downgradeown:{}", k),
             Op::Nop => write!(f, "nop"),
         }
     }
@@ -238,6 +245,7 @@ pub fn parse_op(s: &str) -> Option<Op> {
         "wnew" => Op::WeakNew,
         "tryunwrap" => Op::TryUnwrap(u(1)?),
         "makemut" => Op::MakeMut(u(1)?),
+        "makemutin" => Op::MakeMutIn(o(1)?, u(2)?),
         "getmut" => Op::GetMut(u(1)?),
         "rawround" => Op::RawRound(u(1)?),
         "incstrong" => Op::IncStrong(h(1)?),
@@ -245,6 +253,7 @@ pub fn parse_op(s: &str) -> Option<Op> {
         "panic" => Op::Panic,
         "clonedead" => Op::CloneDead(u(1)?),
         "dropdead" => Op::DropDead(u(1)?),
+        "downgradeown" => Op::DowngradeOwn(u(1)?),
         "nop" => Op::Nop,
         _ => return None,
     })
